@@ -16,9 +16,27 @@ import sys
 import time
 from pathlib import Path
 
+import os
+
 VERIF = Path(__file__).resolve().parent.parent.parent
+SEEDED = VERIF / 'seeded'
 REPO = Path('/repo')
 PY = '/venv/bin/python'
+
+
+def use_scratch(tag):
+    """work on private copies of /repo and /verif (so that neither is touched and several runs can go on
+    in parallel); results are still written to the real seeded/<id>/result.json"""
+    global VERIF, REPO
+    base = Path('/tmp/seedscratch') / tag
+    base.mkdir(parents=True, exist_ok=True)
+    subprocess.run(['rsync', '-a', '--delete', '--exclude', '*.egg-info', '/repo/', str(base / 'repo') + '/'], check=True)
+    subprocess.run(['git', '-C', str(base / 'repo'), 'worktree', 'prune'], check=False)
+    subprocess.run(['rsync', '-a', '--delete', '--exclude', '.git', '--exclude', 'seeded', '--exclude', 'replays',
+                    str(VERIF) + '/', str(base / 'verif') + '/'], check=True)
+    REPO = base / 'repo'
+    VERIF = base / 'verif'
+    os.environ['VERIF_REPO'] = str(REPO)
 
 
 def sh(cmd, cwd=None, timeout=3600):
@@ -37,7 +55,7 @@ def do_import(prop, src, offset=0):
     for diff in sorted(src.glob('M*.diff')):
         m = diff.stem
         new = 'M%d' % (int(m[1:]) + offset)
-        dst = VERIF / 'seeded' / ('%s-%s' % (prop, new))
+        dst = SEEDED / ('%s-%s' % (prop, new))
         dst.mkdir(parents=True, exist_ok=True)
         shutil.copy(diff, dst / 'patch.diff')
         demo = src / ('%s_demo.py' % m)
@@ -51,9 +69,9 @@ def do_import(prop, src, offset=0):
 
 
 def do_run(prop, muts, also, tier):
-    muts = muts or sorted(p.name.split('-')[1] for p in (VERIF / 'seeded').glob('%s-M*' % prop))
+    muts = muts or sorted(p.name.split('-')[1] for p in SEEDED.glob('%s-M*' % prop))
     for m in muts:
-        d = VERIF / 'seeded' / ('%s-%s' % (prop, m))
+        d = SEEDED / ('%s-%s' % (prop, m))
         patch = d / 'patch.diff'
         demo = d / 'demo.py'
         res = {'property': prop, 'mutation': m}
@@ -114,7 +132,7 @@ def do_run(prop, muts, also, tier):
         res['caught_by'] = [c for c, v in res.get('checks', {}).items() if v['exit'] == 1]
         (d / 'result.json').write_text(json.dumps(res, indent=1))
         # leave the regenerated Lean files in the state of the clean tree
-        sh([PY, str(VERIF / 'harness' / 'extract.py')], cwd=str(VERIF))
+        sh([PY, str(VERIF / 'harness' / 'extract.py'), str(REPO)], cwd=str(VERIF))
         print(prop, m, 'demo clean/mutated:', res.get('demo_clean_exit'), res.get('demo_mutated_exit'), '| unit:', res.get('unit_tests'),
               '| caught by:', res['caught_by'])
     return 0
@@ -129,6 +147,9 @@ def main(argv):
         rest = argv[2:]
         also, tier, muts = [], 'quick', []
         i = 0
+        if '--scratch' in rest:
+            rest.remove('--scratch')
+            use_scratch(prop)
         while i < len(rest):
             if rest[i] == '--also':
                 also = rest[i + 1].split(',')
